@@ -206,7 +206,9 @@ def gen_history(rng, style):
             used_pools.add(k)
             return list(pools[k]), "shared:" + k
         tg = [t for t in tags if rng.random() < 0.22]
-        return tg, rng.choice(["list", "list", "str", "none", "tuple", "frozenset", "set"])
+        if not tg and insts[-1] and rng.random() < 0.3:
+            tg = [rng.choice(tags)]
+        return tg, rng.choice(["list", "str", "none", "tuple", "frozenset", "set", "gen", "map", "iter", "gen"])
 
     def add(n, name, depthcond):
         if not shadow_add(name, insts[n], False) and rng.random() < 0.93:
@@ -487,11 +489,50 @@ def choose_length(rng, ops, Lpre, style):
     return max(1, min(L, 40))
 
 
-STYLES = ["flat", "chain", "general", "general", "explicit", "explicit", "mixed", "incremental", "rejected", "collide"]
+STYLES = ["flat", "chain", "general", "general", "explicit", "explicit", "mixed", "incremental", "rejected", "collide",
+          "twosel"]
+
+
+def gen_twosel(rng):
+    """scopes opened by the values of TWO selectors of one level; sibling scopes differ in the first selector and
+    agree in the second (or the other way round), re-use field names, and are filled to the last bit"""
+    ops = [["add", 0, 0, rng.choice([1, 1, 2]), None, [], "list"], ["add", 0, 1, rng.choice([1, 1, 2]), None, [], "list"]]
+    if rng.random() < 0.4:
+        ops.append(["add", 0, 2, 1, None, [], "list"])
+    combos = [(0, 1), (1, 1)] if rng.random() < 0.6 else [(1, 0), (1, 1)]
+    extra = [c for c in [(0, 0), (0, 1), (1, 0), (1, 1)] if c not in combos]
+    rng.shuffle(extra)
+    combos += extra[:rng.randint(0, 2)]
+    if rng.random() < 0.5:
+        rng.shuffle(combos)
+    n = 0
+    for va, vb in combos:
+        kw = [[0, va], [1, vb]] if rng.random() < 0.8 else [[1, vb], [0, va]]
+        ops.append(["call", 0, kw])
+        n += 1
+        for name in ([5] if rng.random() < 0.6 else [5, 6]):          # the same names in every sibling scope
+            tg = [t for t in (1, 2, 3) if rng.random() < 0.3]
+            mode = rng.choice(["list", "gen", "str", "iter", "set"])
+            if rng.random() < 0.6:
+                ops.append(["add", n, name, rng.randint(1, 4), None, tg, mode])
+            else:
+                ops.append(["add", n, name, None, None, tg, mode])
+                ops.append(["call", n, [[name, rng.choice([1, 3, 5, 9, 14])]]])
+                n += 1
+    ops.append(["assign", 0])
+    ninst = n + 1
+    for _ in range(rng.randint(2, 5)):
+        k = rng.randrange(ninst)
+        ops.append(rng.choice([["mask", k, None, None], ["value", k, None, None], ["mask", k, rng.choice([1, 2, 3]), None],
+                               ["tags", k, rng.choice([0, 1, 5])], ["potential", k], ["enabled", k]]))
+    return ops
 
 
 def gen_case(rng, idx):
     style = STYLES[idx % len(STYLES)]
+    if style == "twosel":
+        ops = gen_twosel(rng)
+        return dict(L=choose_length(rng, ops, 0, "rejected"), ops=ops, style=style)
     ops, Lpre, _, pre = gen_history(rng, style)
     c = dict(L=choose_length(rng, ops, Lpre, style), ops=ops, style=style)
     if pre:
